@@ -6,3 +6,5 @@ import Photon.Model.Path
 import Photon.Properties.C20
 import Photon.Model.Iov
 import Photon.Properties.C14
+import Photon.Model.RangeLock
+import Photon.Properties.C18
